@@ -1,4 +1,5 @@
 import SstModel.Lemmas.Order
+import SstModel.Spec.Format
 /-
   Executable judges: the property statements as decidable checks on *observed* behaviour.
   The harness sends what the implementation did; these decide whether that satisfies the property.
@@ -17,5 +18,107 @@ def c17 (a b : Bytes) (sep : Option Bytes) (succ : Option Bytes) : Bool :=
   && (match succ with
       | some s => decide (ble a s)
       | none => false)
+
+end Sst.Judge
+
+namespace Sst.Judge
+open Sst Sst.Spec
+
+/-- C05 on one produced file: the independent decoder accepts it, decodes exactly the added entries,
+    data blocks are non-empty, index keys bracket their blocks, the metaindex names the filter, and
+    (for bloom filters) every key passes the independently computed filter of its block.
+    Returns the first failing clause. -/
+def c05 (cmp : Cmp) (img : Bytes) (es : List Entry) (filterName : String) (isBloom : Bool) : String :=
+  match Format.decodeTable img with
+  | none => "independent decoder rejects the file"
+  | some d =>
+    if d.entries ≠ es then "decoded entries differ from the entries added"
+    else if d.blocks.any (·.entries.isEmpty) then "empty data block"
+    else
+      let lastLeIndex := d.blocks.all fun b =>
+        match b.entries.getLast? with
+        | some e => cmp.cmp e.1 b.indexKey != .gt
+        | none => true
+      let indexLtNext := (d.blocks.zip d.blocks.tail).all fun (b, nb) =>
+        match nb.entries.head? with
+        | some e => cmp.cmp b.indexKey e.1 == .lt
+        | none => true
+      if !lastLeIndex then "an index key is below a key of its own block"
+      else if !indexLtNext then "an index key is not below the first key of the next block"
+      else
+        let fkey := ("filter." ++ filterName).toUTF8.toList
+        match d.metaEntries.find? (·.1 = fkey) with
+        | none => "metaindex has no entry for the filter"
+        | some (_, hv) =>
+          match Format.handle hv with
+          | none => "filter handle undecodable"
+          | some (fh, _) =>
+            match Format.block img ⟨fh.offset, fh.size⟩ with
+            | none => "filter block unreadable"
+            | some fb =>
+              if isBloom ∧ !(d.blocks.all fun b => b.entries.all fun e =>
+                    Format.filterBlockMayMatch fb b.handle.offset e.1)
+              then "a key does not pass the filter of its block"
+              else
+                -- blocks are laid out in order and within the file
+                let ordered := (d.blocks.zip d.blocks.tail).all fun (b, nb) =>
+                  b.handle.offset + b.handle.size + 5 ≤ nb.handle.offset
+                if !ordered then "data blocks overlap or are out of order" else "ok"
+
+/-- one observed iterator call: the op and what the implementation answered -/
+structure Obs where
+  op : String
+  arg : Bytes := []
+  out : String
+
+def showKV (e : Option Entry) (hex : Bytes → String) : String :=
+  match e with
+  | some (k, v) => hex k ++ "=" ++ hex v
+  | none => "none"
+
+/-- C04 judge: replay observed calls against the Spec cursor. `prev` from an invalid position is
+    unspecified: the judge then adopts the position shown by the *following* `cur` observation
+    (the harness always issues one), which must be a stored entry or invalid, and requires the
+    returned flag to agree with it. Returns "ok" or the index and reason of the first failure. -/
+def c04 (cmp : Cmp) (es : List Entry) (hex : Bytes → String) : List Obs → Pos → Nat → String
+  | [], _, _ => "ok"
+  | o :: rest, pos, i =>
+    let bad (why : String) := s!"fail {i} {o.op}: {why} (impl answered {o.out})"
+    let cur := showKV (entryAt es pos) hex
+    match o.op with
+    | "adv" =>
+      let (p, b) := advance es pos
+      if o.out = toString b then c04 cmp es hex rest p (i + 1) else bad s!"expected {b}"
+    | "next" =>
+      let (p, _) := advance es pos
+      let want := showKV (entryAt es p) hex
+      if o.out = want then c04 cmp es hex rest p (i + 1) else bad s!"expected {want}"
+    | "prev" =>
+      match pos with
+      | some j =>
+        let (p, b) := prevValid j
+        if o.out = toString b then c04 cmp es hex rest p (i + 1) else bad s!"expected {b}"
+      | none =>
+        -- unspecified: resolve by the following `cur`
+        match rest with
+        | c :: rest' =>
+          if c.op ≠ "cur" then bad "harness protocol: prev must be followed by cur"
+          else if c.out = "none" then
+            if o.out = "false" then c04 cmp es hex rest' none (i + 2) else bad "returned true but is invalid"
+          else
+            match (List.range es.length).find? (fun j => showKV es[j]? hex = c.out) with
+            | some j => if o.out = "true" then c04 cmp es hex rest' (some j) (i + 2)
+                        else bad "returned false but shows an entry"
+            | none => bad s!"exposes {c.out}, which is not a stored entry"
+        | [] => "ok"
+    | "reset" => c04 cmp es hex rest none (i + 1)
+    | "first" => c04 cmp es hex rest (seekToFirst es) (i + 1)
+    | "seek" => c04 cmp es hex rest (lowerBound cmp es o.arg) (i + 1)
+    | "valid" => if o.out = toString pos.isSome then c04 cmp es hex rest pos (i + 1) else bad s!"expected {pos.isSome}"
+    | "cur" => if o.out = cur then c04 cmp es hex rest pos (i + 1) else bad s!"expected {cur}"
+    | "key" =>
+      let want := match entryAt es pos with | some (k, _) => hex k | none => "none"
+      if o.out = want then c04 cmp es hex rest pos (i + 1) else bad s!"expected {want}"
+    | _ => bad "unknown op"
 
 end Sst.Judge
